@@ -215,6 +215,27 @@ Theorem C17_roundtrip_getlink :
     get_link (map (link_of base) (entries roots subjects)) (e_name e) = Some (base ++ [47] ++ e_url e).
 Proof. exact roundtrip_get_link. Qed.
 
+(* driver.make: whenever HTML is written the inventory is written as well, for exactly the subjects whose pages are
+   written (the --html-subject objects, none under --html-summary-pages, else the roots); without HTML an inventory
+   covers the root objects. *)
+Theorem C17_make_subjects :
+  forall (S : Type) (o : make_options S) (roots : list S),
+    (o_makehtml o = true ->
+       exists subjects, make_subjects o roots = (Some subjects, Some subjects) /\
+         subjects = match o_htmlsubjects o with
+                    | _ :: _ => o_htmlsubjects o
+                    | [] => if o_summarypages o then [] else roots
+                    end) /\
+    (o_makehtml o = false -> o_makeintersphinx o = true -> make_subjects o roots = (None, Some roots)) /\
+    (o_makehtml o = false -> o_makeintersphinx o = false -> make_subjects o roots = (None, None)).
+Proof. exact @make_subjects_agree. Qed.
+
+(* only the summary pages: no object page is written and the inventory is empty *)
+Example C17_summary_pages_only_lists_nothing :
+  make_subjects (MkOpts true false [] true) [1; 2; 3] = (Some [], Some []) /\
+  gen_lines [] [] = [].
+Proof. split; reflexivity. Qed.
+
 (* non-vacuity: a project m { f(), class _h (hidden) { x } , class K { g() } } meets every hypothesis
    (compress = prefix one byte 'x', decompress = drop it, ASCII codec = identity) and reads back as 4 entries *)
 Definition w_subjects : list obj :=
